@@ -18,6 +18,7 @@ package proxy
 import (
 	"context"
 	"errors"
+	"io"
 	"net"
 	"net/http"
 	"net/url"
@@ -377,6 +378,8 @@ func createUpstreamRequest(rw http.ResponseWriter, r *http.Request) (*http.Reque
 	// For server requests the Request Body is always non-nil.
 	if r.ContentLength == 0 {
 		outreq.Body = nil
+	} else if r.ContentLength > 0 {
+		outreq.Body = &knownLengthBody{ReadCloser: r.Body, remaining: r.ContentLength}
 	}
 
 	// We are modifying the same underlying map from req (shallow
@@ -426,6 +429,34 @@ func createUpstreamRequest(rw http.ResponseWriter, r *http.Request) (*http.Reque
 	}
 
 	return outreq, cancel
+}
+
+// knownLengthBody reports io.EOF by itself once Content-Length bytes of the
+// client request body have been delivered, without consulting the underlying
+// body again.
+//
+// After net/http's Transport has copied Content-Length bytes upstream it
+// reads the body once more to check that nothing follows. The server side of
+// net/http, however, closes the request body as soon as the first byte of
+// the response is written downstream. When the backend answers quickly these
+// two race: the extra read then fails with "http: invalid Read on closed
+// Body", the Transport treats that as a failed request write and closes the
+// upstream connection, and the response that is being relayed is cut short.
+type knownLengthBody struct {
+	io.ReadCloser
+	remaining int64
+}
+
+func (b *knownLengthBody) Read(p []byte) (int, error) {
+	if b.remaining <= 0 {
+		return 0, io.EOF
+	}
+	if int64(len(p)) > b.remaining {
+		p = p[:b.remaining]
+	}
+	n, err := b.ReadCloser.Read(p)
+	b.remaining -= int64(n)
+	return n, err
 }
 
 func createRespHeaderUpdateFn(rules http.Header, replacer httpserver.Replacer, replacements headerReplacements) respUpdateFn {
